@@ -17,6 +17,13 @@ temporary directory that is the ONLY entry of PATH while the harness runs (the r
 LaTeXToPDF yields finished pdfs whenever its process pool reports them (documented), so for it the outputs for A are
 compared as a multiset and the position of pdfs relative to unselected values is not constrained.
 
+RunIf, MapGroup and MapBins send their selected values through an INNER SEQUENCE.  Besides element-wise inner sequences
+they are configured with inner sequences whose output depends on their whole flow (`Chunk`: number within the `run`
+call, count over the life of the element, number of the call, two results per value and a closing result per call;
+`RunningTotal`; lena.math.Sum, lena.flow.Slice, lena.flow.Count), so that any regrouping of the selected values into
+other `run` calls (adjacent selected values in one call, all at the end, a re-created or additionally advanced inner
+sequence) makes the results for A differ between the interleavings in which selected values are adjacent (A alone, SSU,
+USS, ...) and those in which unselected values separate them (SUS, ...).
 Failure ids are "<Element>/<clause of the property>/<class of the unselected value>", classes: bare, pair (unrelated
 context), disabled (output.write / output.to_csv / histogram.to_graph False), lookalike (near miss of the element's own
 selection), already-written (Write: data == the path it would write), written-elsewhere (Write: data ==
